@@ -230,6 +230,23 @@ class Gen:
         if not fs: lines.append("    pass")
         self.pool.add(lines)
         return self._obj_node("dataclass", n, fs, decl=lines)
+    def g_postinit(self, d):
+        """dataclass whose `__post_init__` (own, or inherited from a base dataclass) normalises a field: outside the Lean
+        model (tag `postinit`), used by the relational checks (constructor override, no_copy, precomputed method)"""
+        n = self.pool.fresh("C"); b = self.pool.fresh("PB")
+        inherited = self.rnd.random() < 0.6
+        post = ["    def __post_init__(self):", "        self.a = 0 - abs(self.a)"]
+        lines = []
+        if inherited:
+            lines += ["@dataclass", f"class {b}:", "    a: int = 0"] + post + ["", "@dataclass", f"class {n}({b}):", "    b: str = 'dv'"]
+        else:
+            lines += ["@dataclass", f"class {n}:", "    a: int = 0", "    b: str = 'dv'"] + post
+        self.pool.add(lines)
+        fs = [dict(name="a", alias="a", required=False, fbod=False, ty=self.g_int(0), dflt=lit_proto(0), dflt_src="0"),
+              dict(name="b", alias="b", required=False, fbod=False, ty=self.g_str(0), dflt=lit_proto("dv"), dflt_src="'dv'")]
+        node = self._obj_node("dataclass", n, fs, decl=lines)
+        node.tags = ("postinit",)
+        return node
     def g_recursive(self, d):
         """self-recursive dataclass (through Optional and, sometimes, a list); presented to the model as its unfolding to
         depth 4 (generated data are at most 3 deep); the self-reference field may carry object constraints"""
